@@ -79,7 +79,7 @@ func hasPrefixAny(s string, ps ...string) bool {
 }
 
 func calleeIs(c *ssa.Call, name string) bool { return prov.CalleeName(&c.Call) == name }
-func provOf(v ssa.Value) string               { return prov.Of(v) }
+func provOf(v ssa.Value) string              { return prov.Of(v) }
 
 func shortT(t types.Type) string {
 	return types.TypeString(t, func(p *types.Package) string { return p.Name() })
